@@ -408,7 +408,8 @@ def _bounded(ctx):
         done += 1
         for i, n in enumerate(nodes[:6]):
             path = [rng.choice(m.spellings()) if i % 2 else m.name for m in n.chain()]
-            for extra in ([], ["-v"], ["--no-ansi"]):
+            # (also: the help switch directly behind an option that requires a value, and behind a flag written with a value)
+            for extra in ([], ["-v"], ["--no-ansi"], ["--val"], ["-w"], ["--opt=1"]):
                 for sp in ("-h", "--help"):
                     run_case(t, path + extra + [sp], path, "write")
     ctx.done(exhaustive=False, note=rep.note())
